@@ -663,7 +663,35 @@ func runC14(e *sim.Env) {
 			tb = gen.NewTxBuilder(e, tip.L)
 			tb.OrderSafe, tb.UsedEnds, tb.Strict = true, tree.UsedEnds, genStrict
 			e.Shape("block", fmt.Sprint(partial))
-			if partial && e.Chance(1, 2) {
+			if partial && e.Chance(1, 3) {
+				// the first pool call after the block is a lookup by id of a
+				// transaction the block left in the pool: if the listing that
+				// follows has it, the lookup had to find it too
+				var cand []types.TransactionID
+				for _, t := range after.v1[len(bt):] {
+					cand = append(cand, t.ID())
+				}
+				for _, t := range after.v2[len(bv):] {
+					cand = append(cand, t.ID())
+				}
+				id := cand[e.Intn(len(cand))]
+				var ok1, ok2 bool
+				e.Guard("C14.lookup-panic", "PoolTransaction(first call after block)", func() {
+					if e.Chance(1, 2) {
+						_, ok1 = s.cm.PoolTransaction(id)
+						_, ok2 = s.cm.V2PoolTransaction(id)
+					} else {
+						_, ok2 = s.cm.V2PoolTransaction(id)
+						_, ok1 = s.cm.PoolTransaction(id)
+					}
+				})
+				now := snapPool(e, "C14", s.cm)
+				if kind, listed := now.ids[id]; listed && !ok1 && !ok2 {
+					e.Violationf("C14.lookup", "first-call-after-block", "the first pool call after a block was a lookup of the pooled %s transaction %v: reported absent, yet the pool lists it", kind, id)
+				}
+				e.Probe("lookup_is_first_pool_call_after_block")
+				lookups("after block")
+			} else if partial && e.Chance(1, 2) {
 				// leave the pool alone: the next submission is the first pool
 				// call after the block
 				pr := poolSnap{ids: map[types.TransactionID]string{}}
@@ -701,7 +729,7 @@ func kindOr(k string) string {
 func init() {
 	register(&Prop{
 		ID: "C14", Run: runC14, Quick: 1200, Thorough: 30000, Level: "exploration",
-		Rule:        "one run = drawn network and chain, then 6-24 pool submissions (v1 or v2 sets of 1-4 possibly dependent transactions: fresh / partly known / conflicting with the pool at a drawn position / invalid at a drawn position / all known) with lookups of every pooled v1 id, v2 id and unknown ids on both lookup functions, TransactionsForPartialBlock for a drawn subset of leaf hashes, agreement of listing and lookup, mutation and reordering of returned values and of the caller's own transactions after each call, and an occasional block assembled from the whole reported pool or a drawn prefix of it, after which the next call is either a query or (1 in 2 after a prefix block) directly the next submission, so that the submission itself is the call that revalidates the pool; distinct = abstract trace of (mode, version, error, known); non-trivial = at least one non-fresh set",
+		Rule:        "one run = drawn network and chain, then 6-24 pool submissions (v1 or v2 sets of 1-4 possibly dependent transactions: fresh / partly known / conflicting with the pool at a drawn position / invalid at a drawn position / all known) with lookups of every pooled v1 id, v2 id and unknown ids on both lookup functions, TransactionsForPartialBlock for a drawn subset of leaf hashes, agreement of listing and lookup, mutation and reordering of returned values and of the caller's own transactions after each call, and an occasional block assembled from the whole reported pool or a drawn prefix of it, after which the next call is a listing, a lookup by id of a transaction the block left pooled, or directly the next submission, so that the submission itself is the call that revalidates the pool; distinct = abstract trace of (mode, version, error, known); non-trivial = at least one non-fresh set",
 		Real:        []string{"chain.Manager (pool)", "chain.DBStore"},
 		Stub:        []string{"disk: simdisk.DB"},
 		Assumptions: []string{"pool contents are observed through PoolTransactions / V2PoolTransactions before and after each call"},
